@@ -589,6 +589,59 @@ sec_raw(const rkey *k, const impl_t *m)
 		free(b1); free(b2); free_pk(&pv); free_sk(&sv);
 	}
 
+	/* ---- every private key view (plain / leading zeros / p<->q swapped / both) gets at least two
+	   random operands, whatever the budget: for the large keys on the slow engines the loop above only
+	   reaches x = 0, 1, n-1 */
+	{
+		int cnt[4] = { 0, 0, 0, 0 }, v;
+		for (j = 4; j < np; j ++) cnt[j & 3] ++;
+		for (v = 0; v < 4; v ++) {
+			while (cnt[v] < 2) {
+				skv sv;
+				unsigned char *b1 = xmalloc(nlen);
+				uint32_t r1;
+				mk_sk_var(&sv, k, v);
+				rand_below_n(k, x);
+				ref_modexp(k, k->d, rs, x, nlen);
+				memcpy(b1, x, nlen);
+				r1 = m->priv(b1, &sv.sk);
+				CMP("raw_priv");
+				vf_stat("raw_priv_view_topup", 1);
+				if (r1 != 1 || memcmp(b1, rs, nlen) != 0)
+					rviol("C10:raw:private-vs-bignum", "x^d mod n differs from BN_mod_exp (or returned 0)",
+						"%s sk=%s r=%u x=%s", g_ctx, sv.desc, r1, vf_hexs(x, nlen));
+				vf_distinct("config", "raw/%s/%s/v%d", m->name, k->name, v);
+				free(b1); free_sk(&sv);
+				cnt[v] ++;
+			}
+		}
+	}
+
+	/* ---- public exponent as long as the modulus (documented: "may have arbitrary length"): e := d */
+	if (strcmp(k->name, "k512_e65537") == 0 || strcmp(k->name, "k1025_e17_m3") == 0
+		|| strcmp(k->name, "k2048_e65537") == 0)
+	{
+		int v;
+		for (v = 0; v < 2; v ++) {
+			br_rsa_public_key pe;
+			unsigned char *b1 = xmalloc(nlen);
+			uint32_t r1;
+			pe.n = bn_buf(k->n, v ? 1 : 0, &pe.nlen);
+			pe.e = bn_buf(k->d, v ? 2 : 0, &pe.elen);
+			rand_below_n(k, x);
+			ref_modexp(k, k->d, rs, x, nlen);
+			memcpy(b1, x, nlen);
+			r1 = m->pub(b1, nlen, &pe);
+			CMP("raw_pub_full_exponent");
+			if (r1 != 1 || memcmp(b1, rs, nlen) != 0)
+				rviol("C10:raw:public-long-exponent", "x^e mod n with an exponent of modulus length differs from BN_mod_exp (or returned 0)",
+					"%s variant=%d r=%u elen=%u x=%s", g_ctx, v, r1, (unsigned)pe.elen, vf_hexs(x, nlen));
+			vf_distinct("config", "raw-long-e/%s/%s/%d", m->name, k->name, v);
+			free(b1); free(pe.n); free(pe.e);
+			if (k->bits > 1100) break;      /* one operation for the 2048-bit key */
+		}
+	}
+
 	/* ---- public: range, length, parity (documented: returns 0) */
 	{
 		pkv pv, pz;
@@ -680,8 +733,8 @@ sec_raw(const rkey *k, const impl_t *m)
 		free_pk(&pv); free_pk(&pz);
 	}
 
-	/* ---- private: even factor => 0 (property statement); x >= n and wrong
-	   n_bitlen are outside the documented contract: executed, not judged */
+	/* ---- private: even factor => 0, x >= n => 0 (property statement); a wrong
+	   n_bitlen is outside the documented contract: executed, not judged */
 	{
 		skv sv;
 		unsigned char *b;
@@ -714,20 +767,28 @@ sec_raw(const rkey *k, const impl_t *m)
 			free(b); free_sk(&sv);
 			BN_free(pp); BN_free(qq); BN_free(nn); BN_free(xx);
 		}
-		mk_sk(&sv, k, 0, NULL);
+		/* x = n, n + small (when it fits), all-ones: the property statement requires values not below
+		   the modulus to be rejected (bearssl_rsa.h: "0 on error"; OAEP / TLS decryption rely on this result) */
+		mk_sk_var(&sv, k, (int)((g_seed + (unsigned)g_unit) & 3));
 		b = xmalloc(nlen);
-		if (spend()) {
-			BN_bn2binpad(k->n, b, (int)nlen);
+		for (v = 0; v < 3; v ++) {
+			BIGNUM *t = BN_dup(k->n);
+			if (v == 1) {
+				if (!spend()) { BN_free(t); continue; }
+				BN_add_word(t, 1 + vf_below(&R, 1000));
+			}
+			if (v == 2) memset(b, 0xFF, nlen);
+			else if (BN_num_bytes(t) > (int)nlen) { BN_free(t); continue; }
+			else BN_bn2binpad(t, b, (int)nlen);
+			BN_free(t);
 			r = m->priv(b, &sv.sk);
-			vf_stat("unjudged_priv_x_ge_n", 1);
-			vf_stat(r ? "unjudged_priv_x_ge_n_ret1" : "unjudged_priv_x_ge_n_ret0", 1);
+			CMP("raw_priv_range");
+			if (r != 0)
+				rviol("C10:strict:private-x-not-below-n", "private op returned 1 for x >= n",
+					"%s sk=%s variant=%d", g_ctx, sv.desc, v);
 		}
-		if (spend()) {
-			memset(b, 0xFF, nlen);
-			r = m->priv(b, &sv.sk);
-			vf_stat("unjudged_priv_x_ge_n", 1);
-			vf_stat(r ? "unjudged_priv_x_ge_n_ret1" : "unjudged_priv_x_ge_n_ret0", 1);
-		}
+		free_sk(&sv);
+		mk_sk(&sv, k, 0, NULL);
 		/* n_bitlen off by one but same byte length */
 		if ((k->bits & 7) != 1 && (k->bits & 7) != 0 && g_allow >= 2) {
 			rand_below_n(k, b);
@@ -1564,6 +1625,54 @@ sec_oaep(const rkey *k, const impl_t *m)
 		}
 		free_sk(&sv);
 	}
+	/* a valid ciphertext c made by OpenSSL, presented as c + n (same length): the ciphertext representative
+	   is not below the modulus => decryption error (RFC 8017 7.1.2 step 2b; header: "fails in any way" => 0) */
+	if ((long)nlen - 2 * 20 - 2 >= 1) {
+		const hdesc *h = &HASHES[1 + (unsigned)((unsigned)g_unit + g_seed) % 3];
+		size_t ml, ol;
+		int tries, done_ = 0;
+		skv sv;
+		if ((long)nlen - 2 * (long)h->hlen - 2 < 1) h = &HASHES[1];
+		ml = 1 + vf_below(&R, (uint32_t)(nlen - 2 * h->hlen - 2));
+		vf_bytes(&R, msg, ml);
+		for (tries = 0; tries < 32 && !done_; tries ++) {
+			EVP_PKEY_CTX *c = oaep_ctx(k, 1, h, NULL, 0);
+			BIGNUM *t;
+			ol = nlen;
+			if (EVP_PKEY_encrypt(c, ct, &ol, msg, ml) != 1 || ol != nlen) HARNESS_FAIL("oaep-openssl-encrypt");
+			EVP_PKEY_CTX_free(c);
+			t = bn_from(ct, nlen);
+			BN_add(t, t, k->n);
+			if (BN_num_bytes(t) <= (int)nlen) {
+				BN_bn2binpad(t, em, (int)nlen);
+				mk_sk_var(&sv, k, (int)((g_seed + (unsigned)g_unit) & 3));
+				if (g_allow >= 4 && spend()) {
+					CMP("oaep_decrypt_openssl_ct");
+					oaep_check_dec(m, &sv.sk, ct, nlen, h, NULL, 0, 1, msg, ml, "C10:oaep:decrypt-openssl", "oaep_decrypt fails on / differs for an OpenSSL ciphertext");
+				}
+				CMP("oaep_strict_ct_plus_n");
+				{
+					/* only the returned value is judged here. On the unchanged library the call returns 0 but
+					   has already stored the plaintext length in *len (the header says "*len is unmodified"
+					   on failure): reported as a finding to the owner of the suite, counted, not flagged */
+					unsigned char *d = vf_dup(em, nlen);
+					size_t *lp = xmalloc(sizeof *lp);
+					uint32_t r;
+					*lp = nlen;
+					r = m->odec(h->bc, NULL, 0, &sv.sk, d, lp);
+					if (r != 0)
+						rviol("C10:strict:oaep-ciphertext-not-below-n", "oaep_decrypt accepted ciphertext + n (representative not below the modulus)",
+							"%s hash=%s sk=%s got=%u len=%u ct=%s", g_ctx, h->name, sv.desc, r, (unsigned)*lp, vf_hexs(em, nlen));
+					vf_stat(*lp != nlen ? "observed_oaep_ct_plus_n_len_modified" : "observed_oaep_ct_plus_n_len_kept", 1);
+					free(d); free(lp);
+				}
+				free_sk(&sv);
+				done_ = 1;
+			}
+			BN_free(t);
+		}
+		if (!done_) vf_stat("oaep_ct_plus_n_no_fit", 1);
+	}
 	/* oversized modulus: documented to return 0 */
 	{
 		br_rsa_public_key pe;
@@ -1701,6 +1810,33 @@ sec_tls(const rkey *k, const impl_t *m)
 		vf_max("tls_positions_per_em", (long long)np_);
 		free_sk(&sv);
 	}
+	/* an OpenSSL type-2 block c presented as c + n: "a decryption error ... reported with a returned value of 0" */
+	{
+		int tries, done_ = 0;
+		skv sv;
+		for (tries = 0; tries < 32 && !done_; tries ++) {
+			BIGNUM *t;
+			vf_bytes(&R, pms, 48);
+			pms[0] = 3; pms[1] = 3;
+			if (RSA_public_encrypt(48, pms, ct, k->rsa, RSA_PKCS1_PADDING) != (int)nlen) HARNESS_FAIL("tls-openssl-encrypt");
+			t = bn_from(ct, nlen);
+			BN_add(t, t, k->n);
+			if (BN_num_bytes(t) <= (int)nlen) {
+				BN_bn2binpad(t, em2, (int)nlen);
+				mk_sk_var(&sv, k, (int)((g_seed + (unsigned)g_unit) & 3));
+				if (g_allow >= 4 && spend()) {
+					CMP("tls_decrypt_openssl_ct");
+					tls_check(m, &sv.sk, ct, nlen, 1, pms, "C10:tls:decrypt-openssl", "br_rsa_ssl_decrypt fails on / differs for an OpenSSL type-2 block");
+				}
+				CMP("tls_strict_ct_plus_n");
+				tls_check(m, &sv.sk, em2, nlen, 0, NULL, "C10:strict:tls-ciphertext-not-below-n", "br_rsa_ssl_decrypt accepted ciphertext + n (value not below the modulus)");
+				free_sk(&sv);
+				done_ = 1;
+			}
+			BN_free(t);
+		}
+		if (!done_) vf_stat("tls_ct_plus_n_no_fit", 1);
+	}
 done:
 	free(ct); free(em); free(em2); free(pos);
 }
@@ -1777,6 +1913,40 @@ check_compute(const rkey *k, const impl_t *m, const skv *sv, int from_keygen)
 			if (r != 0) rviol("C10:compute:privexp-bad-e", "compute_privexp accepted an even e", "%s", g_ctx);
 		}
 		free(db);
+	}
+	if (m->cpriv) {
+		/* a public exponent that is not invertible modulo (p-1)(q-1): r = the smallest odd prime dividing
+		   (p-1)(q-1), and a 32-bit odd multiple of it. Documented condition of success: "relatively prime
+		   to p-1 and q-1"; "on error, 0 is returned" (judged with d != NULL as the header says that not all
+		   errors are detected with d == NULL) */
+		BIGNUM *p1 = BN_dup(k->p), *q1 = BN_dup(k->q);
+		unsigned long r = 3;
+		unsigned char *db = xmalloc(nlen + 8);
+		int v;
+		BN_sub_word(p1, 1); BN_sub_word(q1, 1);
+		/* the smallest odd r > 1 dividing p-1 or q-1 is a prime */
+		for (; r < 2000000; r += 2) {
+			if (BN_mod_word(p1, r) == 0 || BN_mod_word(q1, r) == 0) break;
+		}
+		if (r >= 2000000) {
+			vf_stat("privexp_no_small_common_prime", 1);
+			free(db); BN_free(p1); BN_free(q1);
+			return;
+		}
+		for (v = 0; v < 2; v ++) {
+			/* v = 1: r * (odd cofactor) just below 2^32 */
+			unsigned long co = (0xFFFFFFFFul / r - vf_below(&R, 1000)) | 1;
+			uint32_t e = v ? (uint32_t)(r * (co > 0xFFFFFFFFul / r ? co - 2 : co)) : (uint32_t)r;
+			size_t l;
+			memset(db, 0x5A, nlen + 8);
+			l = m->cpriv(db, &sv->sk, e);
+			CMP("compute_privexp_not_invertible");
+			if (l != 0)
+				rviol("C10:compute:privexp-bad-e", "compute_privexp succeeded with a public exponent that has no inverse modulo (p-1)(q-1)",
+					"%s sk=%s e=%u r=%lu l=%u", g_ctx, sv->desc, e, r, (unsigned)l);
+		}
+		vf_max("privexp_smallest_common_prime", (long long)r);
+		free(db); BN_free(p1); BN_free(q1);
 	}
 }
 
@@ -2036,6 +2206,252 @@ key_unbalanced(rkey *k, int pbits, int qbits, unsigned long e, vf_rng *r)
 	key_finish(k);
 }
 
+/* ------------------------------------------------------------------ */
+/* Section LIMITS: factors / moduli at and beyond the documented size limits
+   (bearssl_rsa.h: "the maximum modulus size is 4096 bits, and the maximum prime
+   factor size is 2080 bits"; compute_modulus: "if the key size exceeds an
+   internal limit, 0 is returned"; compute_pubexp: 0 if "an internal limit is
+   exceeded"; compute_privexp succeeds if "no internal storage limit is
+   exceeded").  The header does not say where exactly each function's limit lies,
+   so beyond the documented maximum the oracle is: the function reports an error
+   (0) OR its result is the mathematically correct one - never a wrong value,
+   never an out-of-bounds access (ASan).  AT the documented maximum (2080-bit
+   factor) success with the correct value is required.  Primes are constants
+   (all = 3 mod 4, p-1 prime to 3 and 65537), made once with `openssl prime`. */
+
+static const char HEX_P2088[] =
+	"ce636d25db52981339271026415615facf5b684ae56d364b88a3e1fa7f4d5455c5c480bbc5ad027ada39de7d248a09135071"
+	"1498038cf4c2275e1e6c659130311917095bd9768dc36944df7bed9b02462e8106f22f084b9ff9336c6832d01fb951122a87"
+	"70c2275e4222d283173ecbbf56d5454fea630e259678c001a81575e44c5e532faef33c5f8a50d6c6f42ecce7e88a53c34aa8"
+	"dec5cc612f3f0481071a98f5cc3ba80795466de08106231c1a65d6f38982cdddaaaba8147ad24a22e1492c4ca2cb1c4770e9"
+	"d083048b546b40f9c404f4f8e1e989fb52eb444ff1487da69a775fa76b59598592cdc9557fb7c14a9766184fe2edb58a456f"
+	"ae1506e439203c33c88e77";
+static const char HEX_P2080A[] =
+	"e2cffb3676e5221bb0b99f8f50ab1d5fbc59b6f54f75f6f4cf55823926b32c5560151fe86e86bd839e1b045afe551454255d"
+	"7faee0d582c9684811604196af066f2ed2283218bd1002da24e9263e468f568e219bdb9ff4254de5e37d0bc0dbfdafc247f2"
+	"a352563ab53c3fc1596db364deea65df3f677526e785f294d1a4f0f0b6270d8f2fb0e21813848432b2e7b0933a11d6fa096f"
+	"b6617e267f504df2adb0c6f46f4577940a606b75bf26dc29db558780085c0f78b3e49f89066141beaadecca0951ab8c4adc8"
+	"6c6b9446f16f19b29dcbf0e3b5a21b165b83be21638bcd1406515d919db02957930e72460d5a4182a8ed37fbbdb93eb1b41e"
+	"45ff78e561ee299f1fcb";
+static const char HEX_P2080B[] =
+	"f6ea2aeec8d3da086267cf012396862c0e3d0ac4ea998fa4e87f7e210958841346fda0a2e0d8fab9aaf56454ff16345112b3"
+	"d94e6bb3e633998a4d02a7207e4547c678e444ca794cf4fd6fc6a8aaabf4113f10888628f5631084b31cf4f95f046cc0a5e5"
+	"f48e4acd67ebcc586e98da0fca42def785b0e101a5723c2755fb056ac0d865d34b54d23d542b14cdb53ecf92079e59f37bdb"
+	"904b309e41c4e62cc616f1d548a19861614437ddf1720bbb6848b5854be89808a2fd9863777d2d642bf6e945a3db2bd7a654"
+	"bf754acdd5681acc8d021f252e12f5ba01f1ef3c1089295c3be336da2fa76f34ef6534e77320b4a8e4babff483b1356cfe65"
+	"6303509f1757393eea63";
+static const char HEX_P520[] =
+	"d2f9857ba02944f72848ffefac90f383b4a6422b929b2331049b0d0498c1a262e9c8b2a7c2921ede1c52d1bae06e89269db4"
+	"3524801400ea70018815ee3bdc6cbf";
+static const char HEX_P2560[] =
+	"f4e29386e9a3ca68c1731e5fd7cc67f6f55259272e872854f7812936ffc8bcd26c4dc9e301b773607199369560636c491698"
+	"9827afaf3ff7b1cca3d0b9e3dab4b04a8191a45ce4fff8458249ff215b5b7e42c9d14498cd0f8b0636c1042f75326cbf08e0"
+	"d9b1fbb2426038530acced51494c215ba778a1aea8e9bfe1d2138447c85b0d7ba9562099484ec0d3ff20dd7ab5f19fe59009"
+	"9083a274d12fcc46c9e5da2cad4fe26904633b9588d19d5be20fea527732aa096df992e10cd6af739a233b934e7b256cf6a5"
+	"334423076fecb908619726209719d6490d7a5a79c4ed00acef5286ab6ac7b25af59c0e38d91e64dd0331e306ec5f073b6787"
+	"e44e6ac31c950b40cc8b9246b0e68f7affe5393741c2ae773745c3e83931956798b6212d05b66af89839fadb814c6fa6e336"
+	"ecc3c14918091d92ea8758e847a57ef39e782ddf";
+
+static BIGNUM *
+bn_hex(const char *h)
+{
+	BIGNUM *b = NULL;
+	if (!BN_hex2bn(&b, h)) HARNESS_FAIL("hex2bn");
+	return b;
+}
+
+/* key from two primes (takes ownership of p and q) */
+static void
+key_from_pq(rkey *k, BIGNUM *p, BIGNUM *q, unsigned long e, const char *name)
+{
+	BIGNUM *p1 = BN_new(), *q1 = BN_new(), *phi = BN_new();
+	memset(k, 0, sizeof *k);
+	k->e = BN_new(); BN_set_word(k->e, e);
+	k->p = p; k->q = q;
+	k->n = BN_new(); k->d = BN_new(); k->dp = BN_new(); k->dq = BN_new(); k->iq = BN_new();
+	BN_mul(k->n, k->p, k->q, bnctx);
+	BN_sub(p1, k->p, BN_value_one()); BN_sub(q1, k->q, BN_value_one());
+	BN_mul(phi, p1, q1, bnctx);
+	if (!BN_mod_inverse(k->d, k->e, phi, bnctx)) HARNESS_FAIL("from-pq-d");
+	BN_mod(k->dp, k->d, p1, bnctx); BN_mod(k->dq, k->d, q1, bnctx);
+	if (!BN_mod_inverse(k->iq, k->q, k->p, bnctx)) HARNESS_FAIL("from-pq-iq");
+	snprintf(k->name, sizeof k->name, "%s", name);
+	BN_free(p1); BN_free(q1); BN_free(phi);
+	key_finish(k);
+}
+
+/* the idx-th largest prime below 2^bits that is 3 mod 4 and has p-1 prime to 65537 */
+static BIGNUM *
+small_prime_m3(int bits, int idx)
+{
+	BIGNUM *c = BN_new(), *t = BN_new();
+	BN_one(c); BN_lshift(c, c, bits); BN_sub_word(c, 1);     /* 2^bits - 1 = 3 mod 4 */
+	for (;;) {
+		if (BN_check_prime(c, bnctx, NULL) == 1) {
+			BN_sub(t, c, BN_value_one());
+			if (BN_mod_word(t, 65537) != 0 && idx -- == 0) break;
+		}
+		BN_sub_word(c, 4);
+	}
+	BN_free(t);
+	return c;
+}
+
+/* strict = 1: the key is within every documented limit, success is required */
+static void
+limits_key(const impl_t *m, const rkey *k, int strict, int nviews)
+{
+	size_t nlen = k->nlen;
+	int j;
+	for (j = 0; j < nviews; j ++) {
+		skv sv;
+		int swap = nviews == 1 ? (int)((g_seed + (unsigned)g_unit) & 1) : j;
+		mk_sk(&sv, k, swap, NULL);
+		vf_distinct("config", "limits/%s/%s/swap%d", m->name, k->name, swap);
+		if (m->priv) {
+			unsigned char *x = xmalloc(nlen), *b = xmalloc(nlen), *ref = xmalloc(nlen);
+			uint32_t r;
+			rand_below_n(k, x);
+			ref_modexp(k, k->d, ref, x, nlen);
+			memcpy(b, x, nlen);
+			r = m->priv(b, &sv.sk);
+			CMP("limits_priv");
+			vf_stat(r ? "limits_priv_ret1" : "limits_priv_ret0", 1);
+			if (r > 1 || (r == 1 && memcmp(b, ref, nlen) != 0) || (strict && r != 1))
+				rviol(strict ? "C10:limits:private-at-limit" : "C10:limits:private-beyond-limit",
+					strict ? "private op fails / differs from BN_mod_exp with a factor of the documented maximum size"
+					: "private op with a factor/modulus beyond the documented maximum returned 1 with a wrong value",
+					"%s sk=%s r=%u x=%s", g_ctx, sv.desc, r, vf_hexs(x, nlen));
+			free(x); free(b); free(ref);
+		}
+		if (m->cmod) {
+			unsigned char *nb = xmalloc(nlen), *ref = xmalloc(nlen);
+			size_t l0 = m->cmod(NULL, &sv.sk), l1;
+			memset(nb, 0x5A, nlen);
+			l1 = m->cmod(nb, &sv.sk);
+			BN_bn2binpad(k->n, ref, (int)nlen);
+			CMP("limits_modulus");
+			vf_stat(l1 ? "limits_modulus_ret_len" : "limits_modulus_ret0", 1);
+			if ((l0 != 0 && l0 != nlen) || (l1 != 0 && (l1 != nlen || memcmp(nb, ref, nlen) != 0)) || (strict && (l0 != nlen || l1 != nlen)))
+				rviol(strict ? "C10:limits:modulus-at-limit" : "C10:limits:modulus-beyond-limit",
+					"compute_modulus: neither 0 nor the exact p*q (or 0 within the documented limits)",
+					"%s sk=%s l0=%u l1=%u", g_ctx, sv.desc, (unsigned)l0, (unsigned)l1);
+			free(nb); free(ref);
+		}
+		if (m->cpub) {
+			uint32_t e = m->cpub(&sv.sk);
+			CMP("limits_pubexp");
+			vf_stat(e ? "limits_pubexp_ret_e" : "limits_pubexp_ret0", 1);
+			if ((e != 0 && e != k->e32) || (strict && e != k->e32))
+				rviol(strict ? "C10:limits:pubexp-at-limit" : "C10:limits:pubexp-beyond-limit",
+					"compute_pubexp: neither 0 nor the public exponent (or 0 within the documented limits)",
+					"%s sk=%s got=%u", g_ctx, sv.desc, e);
+		}
+		if (m->cpriv) {
+			unsigned char *db = xmalloc(nlen + 8);
+			size_t l0 = m->cpriv(NULL, &sv.sk, k->e32), l1;
+			int ok = 1;
+			memset(db, 0x5A, nlen + 8);
+			l1 = m->cpriv(db, &sv.sk, k->e32);
+			CMP("limits_privexp");
+			vf_stat(l1 ? "limits_privexp_ret_len" : "limits_privexp_ret0", 1);
+			if (l1 != 0) {
+				BIGNUM *d = bn_from(db, l1 <= nlen + 8 ? l1 : nlen + 8), *p1 = BN_dup(k->p), *q1 = BN_dup(k->q), *t = BN_new();
+				BN_sub_word(p1, 1); BN_sub_word(q1, 1);
+				BN_mod_mul(t, d, k->e, p1, bnctx); ok = BN_is_one(t);
+				BN_mod_mul(t, d, k->e, q1, bnctx); ok &= BN_is_one(t);
+				ok &= (l1 == nlen) && (l0 == l1);
+				BN_free(d); BN_free(p1); BN_free(q1); BN_free(t);
+			}
+			if (!ok || (strict && l1 == 0))
+				rviol(strict ? "C10:limits:privexp-at-limit" : "C10:limits:privexp-beyond-limit",
+					"compute_privexp: neither 0 nor an inverse of e (or 0 within the documented limits)",
+					"%s sk=%s l0=%u l1=%u", g_ctx, sv.desc, (unsigned)l0, (unsigned)l1);
+			free(db);
+		}
+		free_sk(&sv);
+	}
+}
+
+static void
+sec_limits(const impl_t *m)
+{
+	rkey k;
+	int v;
+
+	/* factor of exactly the documented maximum (2080 bits = BR_MAX_RSA_FACTOR): must work */
+	key_from_pq(&k, bn_hex(HEX_P2080A), bn_hex(HEX_P520), 65537, "f2080x520");
+	limits_key(m, &k, 1, 2);
+	key_free(&k);
+	/* one byte more than BR_MAX_RSA_FACTOR / 8 (as p, and as q through the swapped view) */
+	key_from_pq(&k, bn_hex(HEX_P2088), bn_hex(HEX_P520), 65537, "f2088x520");
+	if ((size_t)BN_num_bytes(k.p) != (BR_MAX_RSA_FACTOR / 8) + 1) HARNESS_FAIL("limits-size");
+	limits_key(m, &k, 0, 2);
+	key_free(&k);
+	/* legal factors, modulus of 4160 bits */
+	key_from_pq(&k, bn_hex(HEX_P2080A), bn_hex(HEX_P2080B), 65537, "f2080x2080");
+	limits_key(m, &k, 0, 1);
+	key_free(&k);
+	/* 2560-bit factor */
+	key_from_pq(&k, bn_hex(HEX_P2560), bn_hex(HEX_P520), 65537, "f2560x520");
+	limits_key(m, &k, 0, 1);
+	key_free(&k);
+	/* undersized factors: 4 bytes (below the 5 bytes compute_pubexp / compute_privexp ask for), 5 bytes, 4 x 5 */
+	key_from_pq(&k, small_prime_m3(32, 0), small_prime_m3(32, 1), 65537, "f32x32");
+	limits_key(m, &k, 0, 2);
+	key_free(&k);
+	key_from_pq(&k, small_prime_m3(40, 0), small_prime_m3(33, 0), 65537, "f40x33");
+	limits_key(m, &k, 0, 2);
+	key_free(&k);
+	key_from_pq(&k, small_prime_m3(24, 0), small_prime_m3(17, 0), 65537, "f24x17");
+	limits_key(m, &k, 0, 2);
+	key_free(&k);
+
+	/* far beyond every limit (random odd 400-byte "factor", not a key at all): nothing to judge but the
+	   sanitizers; the functions must not write outside their fixed-size buffers */
+	for (v = 0; v < 2; v ++) {
+		br_rsa_private_key sk;
+		size_t big = 400 + vf_below(&R, 60), small = 65, xl;
+		unsigned char *pb = xmalloc(big), *qb, *x, *db;
+		BIGNUM *q = bn_hex(HEX_P520), *p, *n = BN_new();
+		uint32_t r;
+		size_t l;
+		vf_bytes(&R, pb, big);
+		pb[0] |= 0x80; pb[big - 1] |= 3;
+		p = bn_from(pb, big);
+		BN_mul(n, p, q, bnctx);
+		qb = bn_buf(q, 0, &small);
+		sk.n_bitlen = (uint32_t)BN_num_bits(n);
+		xl = (sk.n_bitlen + 7) >> 3;
+		if (v == 0) { sk.p = pb; sk.plen = big; sk.q = qb; sk.qlen = small; }
+		else { sk.q = pb; sk.qlen = big; sk.p = qb; sk.plen = small; }
+		sk.dp = xmalloc(sk.plen); sk.dplen = sk.plen; vf_bytes(&R, sk.dp, sk.dplen); sk.dp[0] &= 0x7F; sk.dp[sk.dplen - 1] |= 1;
+		sk.dq = xmalloc(sk.qlen); sk.dqlen = sk.qlen; vf_bytes(&R, sk.dq, sk.dqlen); sk.dq[0] &= 0x7F; sk.dq[sk.dqlen - 1] |= 1;
+		sk.iq = xmalloc(sk.plen); sk.iqlen = sk.plen; vf_bytes(&R, sk.iq, sk.iqlen); sk.iq[0] &= 0x7F;
+		x = xmalloc(xl); vf_bytes(&R, x, xl); x[0] = 0;
+		db = xmalloc(xl + 8);
+		if (m->priv) {
+			r = m->priv(x, &sk);
+			vf_stat(r ? "unjudged_limits_huge_priv_ret1" : "unjudged_limits_huge_priv_ret0", 1);
+		}
+		if (m->cmod) {
+			l = m->cmod(db, &sk);
+			vf_stat(l ? "unjudged_limits_huge_modulus_ret_len" : "unjudged_limits_huge_modulus_ret0", 1);
+		}
+		if (m->cpub) {
+			r = m->cpub(&sk);
+			vf_stat(r ? "unjudged_limits_huge_pubexp_ret_e" : "unjudged_limits_huge_pubexp_ret0", 1);
+		}
+		if (m->cpriv) {
+			l = m->cpriv(db, &sk, 65537);
+			vf_stat(l ? "unjudged_limits_huge_privexp_ret_len" : "unjudged_limits_huge_privexp_ret0", 1);
+		}
+		vf_stat("unjudged_limits_huge", 1);
+		free(pb); free(qb); free(sk.dp); free(sk.dq); free(sk.iq); free(x); free(db);
+		BN_free(p); BN_free(q); BN_free(n);
+	}
+}
+
 enum { S_RAW, S_P1, S_PSS, S_OAEP, S_TLS, S_N };
 static const char *SECNAME[] = { "raw", "p1", "pss", "oaep", "tls" };
 
@@ -2137,6 +2553,14 @@ main(int argc, char **argv)
 				}
 			}
 		}
+	}
+	/* size limits (appended so that the numbering of the older units is unchanged) */
+	for (mi = 0; mi < NIMPL; mi ++) {
+		const impl_t *m = &IMPLS[mi];
+		UNIT_BEGIN("limits %s", m->name);
+		snprintf(g_ctx, sizeof g_ctx, "unit=%d seed=%llu sec=limits impl=%s", g_unit, g_seed, m->name);
+		sec_limits(m);
+		UNIT_END;
 	}
 	if (list) return 0;
 	vf_done();
